@@ -142,7 +142,7 @@ func runC15(a *A) {
 			}
 			a.Check(okRow, fname(fn)+"#row-is-enriched", c.Pos(), "the engine receives the JOIN-enriched row", "the engine is not fed with the row returned by enrichData")
 			kc, isCall := key.(*ssa.Call)
-			a.Check(isCall && kc.Call.StaticCallee() == pk && kc.Call.Args[1] == row, fname(fn)+"#key-of-same-row", c.Pos(), "the partition key is computed from the same row by the runner's encoder", "the partition key passed to Process is not partitionKey(<the row fed>)")
+			a.Check(isCall && kc.Call.StaticCallee() == pk && sameValue(kc.Call.Args[1], row), fname(fn)+"#key-of-same-row", c.Pos(), "the partition key is computed from the same row by the runner's encoder", "the partition key passed to Process is not partitionKey(<the row fed>)")
 			// WHERE rejection and INNER-JOIN drop precede the engine
 			okGate := guardedByValue(c.Block(), func(v ssa.Value) bool {
 				call, ok := v.(*ssa.Call)
